@@ -6,6 +6,7 @@ import (
 	"encoding/json"
 	"errors"
 	"fmt"
+	"io"
 	"os"
 
 	"github.com/aldas/go-modbus-client/packet"
@@ -22,6 +23,7 @@ type Case struct {
 	Req     spec.Req `json:"req"`
 	ExcCode int      `json:"exc_code"`
 	Corrupt string   `json:"corruption"`
+	EOF     bool     `json:"then_eof,omitempty"` // the peer closes the stream after the (corrupted) reply
 	Frame   string   `json:"corrupted_frame_hex"`
 	Cut     int      `json:"cut"` // 0 = delivered whole, k = first read delivers k bytes
 }
@@ -30,10 +32,14 @@ type Case struct {
 type deliver struct {
 	kind clientx.Kind
 	cut  int
+	eof  bool // after the bytes the peer closes the stream (otherwise the line stays silent)
 }
 
 func (d *deliver) Read(t *clientx.Transport, bufLen int) clientx.ReadAnswer {
 	r := t.Remaining()
+	if r == 0 && d.eof {
+		return clientx.ReadAnswer{Err: io.EOF, Label: "eof"}
+	}
 	if r == 0 {
 		if d.kind.IsSerial() {
 			return clientx.ReadAnswer{Timeout: true}
@@ -60,7 +66,7 @@ type local struct{ evals, nontrivial int64 }
 
 func eval(sc clientx.Sc, c Case, frame []byte, res *ev.Result, lc *local) {
 	lc.evals++
-	run := clientx.Execute(sc.Scenario, sc.Q, &deliver{kind: sc.Kind, cut: c.Cut}, clientx.Options{ReplyOverride: frame, ReadTimeout: 5e6})
+	run := clientx.Execute(sc.Scenario, sc.Q, &deliver{kind: sc.Kind, cut: c.Cut, eof: c.EOF}, clientx.Options{ReplyOverride: frame, ReadTimeout: 5e6})
 	first5exc := len(frame) >= 5 && frame[1]&0x80 != 0
 	attrs := map[string]any{"client": sc.Kind.String(), "corruption_class": c.Corrupt, "five_byte_exception_window": first5exc && (c.Cut == 5 || len(frame) == 5), "_fc": int(sc.Req.FC)}
 	bad := func(kind, msg string) {
@@ -123,6 +129,9 @@ func run(tier string, shard, nsh int, res *ev.Result) {
 	thorough := tier == "thorough"
 	scs := scenarios()
 	var lc local
+	if shard == 0 {
+		sequenceCheck(res, &lc)
+	}
 	job := 0
 	for _, sc := range scs {
 		good := sc.Reply
@@ -154,6 +163,12 @@ func run(tier string, shard, nsh int, res *ev.Result) {
 				}
 				seen[k] = true
 				eval(sc, mk(sc, class, f, k), f, res, &lc)
+				if k == 0 && (class == "truncation" || class == "extension" || thorough || job%5 == 0) {
+					// the same bytes, after which the peer closes the stream instead of staying silent
+					ce := mk(sc, class, f, k)
+					ce.EOF = true
+					eval(sc, ce, f, res, &lc)
+				}
 			}
 		}
 		for i := 0; i < n; i++ {
@@ -234,6 +249,13 @@ func run(tier string, shard, nsh int, res *ev.Result) {
 }
 
 func replay(check string, raw json.RawMessage, res *ev.Result) {
+	if check == "crc-sequence" {
+		var c SeqCase
+		json.Unmarshal(raw, &c)
+		var lc local
+		evalSeq(c, res, &lc)
+		return
+	}
 	var c Case
 	json.Unmarshal(raw, &c)
 	f, _ := hex.DecodeString(c.Frame)
